@@ -304,6 +304,28 @@ func cmdCheck(args []string) int {
 		}
 	}
 
+	// ---- JSON string-map model validation (same scheme): the model codec against the real encoding/json ----
+	jsonModelNote := ""
+	if !*noNative {
+		var users []string
+		for _, fn := range order {
+			if b, err := os.ReadFile(byFn[fn].H.File); err == nil && harnessBodyContains(string(b), fn, "vrt.JSONModel(") {
+				users = append(users, fn)
+			}
+		}
+		if len(users) > 0 {
+			note, err := validateJSONModel(work)
+			jsonModelNote = note
+			if err != nil {
+				for _, fn := range users {
+					byFn[fn].Problems = append(byFn[fn].Problems, "JSON model not validated against encoding/json: "+err.Error())
+				}
+			} else {
+				validated++
+			}
+		}
+	}
+
 	// ---- verdict ----
 	exit := 0
 	violations := 0
@@ -375,6 +397,10 @@ func cmdCheck(args []string) int {
 	if sqlModelNote != "" {
 		fmt.Println(sqlModelNote)
 		lines = append(lines, sqlModelNote)
+	}
+	if jsonModelNote != "" {
+		fmt.Println(jsonModelNote)
+		lines = append(lines, jsonModelNote)
 	}
 	wall := time.Since(t0).Seconds()
 	if *only == "" && !*noNative {
